@@ -196,6 +196,23 @@ def build(spec, qhook=None, path=()):
     raise ValueError(f"unknown primitive {k}")
 
 
+def renamed(spec, named=True):
+    """The same tree with every lambda quantity given a name (named=True) or every named one made anonymous: the same
+    aggregator as far as merging goes (names are no structure), declared by someone else."""
+    if isinstance(spec, dict):
+        out = {k: renamed(v, named) for k, v in spec.items()}
+        if "fl" in out:
+            if named and out["fl"] in ("lambda", "lambda_kw"):
+                out["fl"] = "named"
+            elif not named and out["fl"] in ("named", "def", "str", "named_str"):
+                out["fl"] = "lambda"
+                out.pop("name", None)
+        return out
+    if isinstance(spec, list):
+        return [renamed(v, named) for v in spec]
+    return spec
+
+
 def relabeled(spec):
     """The same tree with the keys of every Label / UntypedLabel given in the opposite order (Label(a=.., b=..) vs
     Label(b=.., a=..)): the two trees are the same aggregator, labelled children are matched by key, never by position."""
